@@ -86,6 +86,7 @@ fn main() {
         "C15" => dispatch(&engines::demo::DemoEngine, &mode),
         "C17" => dispatch(&engines::teehist::ThEngine, &mode),
         "C18" => dispatch(&engines::sbrowse::SbEngine, &mode),
+        "C19" => dispatch(&engines::buffer::BufEngine, &mode),
         "C20" => dispatch(&engines::multi::MultiEngine, &mode),
         _ => {
             eprintln!("unknown property {}", prop);
